@@ -2159,6 +2159,23 @@ fn apply(c: &Cell, g: &Gen, d: &mut Dice) -> Option<Applied> {
                     } else {
                         Arg::Raw(w.clone())
                     };
+                    // a *known* flag of the attribute written with an argument list of unknown content (`forward(x)`,
+                    // `ignore(x)`, `source(x)`): the list is meaningless there and has to be refused as well
+                    if let Some(&i) = own.first() {
+                        if d.chance(15) {
+                            if let Some(Arg::Flag(known)) = v[i].args().iter().find(|a| matches!(a, Arg::Flag(_))).cloned() {
+                                let mut args = v[i].args().to_vec();
+                                for a in args.iter_mut() {
+                                    if matches!(a, Arg::Flag(k) if *k == known) {
+                                        *a = Arg::Call(known.clone(), vec![w.clone()], false);
+                                        break;
+                                    }
+                                }
+                                v[i].args = Some(args);
+                                return done(item, "known flag with an argument list of unknown content");
+                            }
+                        }
+                    }
                     match own.first() {
                         Some(&i) => {
                             let mut args = v[i].args().to_vec();
